@@ -154,10 +154,18 @@ class FnVerifier:
     def local_type(self, frame, name):
         return self.c.locals.get(name)
 
-    def push_hint(self, node):
+    def push_hint(self, node, frame=None):
         h = None
         if isinstance(node, ast.Assign) and len(node.targets) == 1 and isinstance(node.targets[0], ast.Name):
             h = self.c.locals.get(node.targets[0].id)
+            if h is None and frame is not None:
+                cur = frame.lookup(node.targets[0].id)
+                if cur is not None and cur is not UNDEFINED:
+                    # re-assignment of a variable: an untyped empty container takes its current type
+                    if cur.t.kind == "vset":
+                        h = T.Set(cur.t.elem)
+                    elif cur.t.kind in ("set", "dict") or (cur.t.kind == "list" and cur.t.elem is not PENDING):
+                        h = cur.t
         elif isinstance(node, ast.Assign) and len(node.targets) == 1 and isinstance(node.targets[0], ast.Attribute):
             attr = node.targets[0].attr
             for t in list(self.c.globals.values()) + list(self.c.params.values()):
